@@ -2,16 +2,41 @@
 # Regenerates MANIFEST.json from the table below (kept here so that the file stays valid and in sync).
 import json, subprocess
 props=[json.loads(l) for l in open('/verif/properties.jsonl')]
+TRUST='Trusted: go/ssa lowering, the SMT solvers, the VC generator itself, the trusted table of stdlib/kernel contracts (listed per run in evidence.coverage.trusted_base), and the ASSUMED contracts of the storage primitives readEvents/appendEvents/replaceEventsAtomically/getEventsPath/ergoDir and of writeJSON until the storage layer is under contract. '
+TECH='contract-based deductive verification (own VC generator over go/ssa of the real package; z3 4.8 / z3 5.1 / cvc5 portfolio)'
 claimed = {
- "C06": ("proof", "Deductive proof, for all inputs, of the postconditions of validateTransition (== documented table), validateClaimInvariant (== claim rule) and buildSetEvents (effect of the returned events on (state, claimant) is an allowed transition and satisfies the claim invariant; no events on error) generated from the go/ssa of the real functions; proof is the right level because the property quantifies over every (state, claimant, request) combination.",
-         "DESIGN.md §8 C06", "Trusted: encoding/json round trip on payload structs, time.Format/Parse round trip, strings.TrimSpace algebra, go/ssa, the SMT solvers, the VC generator. The (state, claimant) step of replay is a spec function; its agreement with replayEvents is a separate obligation group (listed in evidence when under contract). Writer induction over command sequences is the standard soundness argument of invariants.",
-         "contract-based deductive verification (own VC generator over go/ssa + z3/cvc5)"),
- "C08": ("proof", "Deductive proof, for all graphs, that isReady/isBlocked/isEpicComplete/areEpicDepsComplete equal the spec predicates transcribed from the statement, that listTasks/filterTasksByKind/readyTasks return exactly the specified members (in-place filtering with aliasing modelled) ordered by (created, id). All inputs, all map iteration orders.",
-         "DESIGN.md §8 C08", "Trusted: sort.Slice/sort.Strings contracts (permutation + order by the proved comparator), go/ssa, solvers, VC generator. wfGraph (non-nil maps/values, Tasks[k].ID==k) is a precondition established by replayEvents (separate obligation).",
-         "contract-based deductive verification (own VC generator over go/ssa + z3/cvc5)"),
- "C09": ("proof", "Deductive proof, for all graphs, that selectPruneTargets returns exactly the finished tasks and the epics without unfinished children, sorted; five loop invariants over map ranges and slices.",
-         "DESIGN.md §8 C09", "Trusted: sort.Strings contract, go/ssa, solvers, VC generator. Clauses of C09 about tombstone replay, id reuse and command guards are not yet under contract (see DESIGN.md).",
-         "contract-based deductive verification (own VC generator over go/ssa + z3/cvc5)"),
+ "C01": ("proof", "For all stores and all schedules: proved on the real code that withLock calls its callback at most once, only while holding the requested flock mode, never blocks (LOCK_NB) and releases; that the claim section picks ready[0] of a list proved to be exactly the ready tasks of the requested epic ordered by (created, id), appends exactly [claim(id, agent), state(id, doing)] whose replay effect is doing+that agent, under LOCK_EX and in the lock epoch of its own read; errors leave the log version unchanged. The schedule quantifier is discharged by the lock-invariant rule, not by exploration.",
+         "DESIGN.md §7.2, §8 C01", TRUST+"flock(2) exclusivity and fail-fast are trusted; no interleaving is enumerated."),
+ "C02": ("proof", "Lock protocol as ghost state over every writer except plan: each call of a write primitive is proved to happen with LOCK_EX held and on a graph read in the same lock epoch; withLock never blocks; every section is at most one commit and leaves the log version unchanged on error. Commands that are more than one lock section (set with a result, new task with state/claim/result, sequence with several edges) are recorded findings with machine-checked residual queries (the clause holds outside the recorded shape).",
+         "DESIGN.md §7.2, §8 C02", TRUST+"Serialisability of sections under every interleaving follows from the trusted flock contract; byte-level interleaving of appends (O_APPEND whole lines) is part of the assumed appendEvents contract."),
+ "C06": ("proof", "For all inputs: validateTransition equals the documented table, validateClaimInvariant equals the claim rule, buildSetEvents returns at most six events whose folded (state, claimant) effect is an allowed transition and satisfies the claim invariant, and nothing on error; the set section appends exactly those events for the live item read under the lock; the claim section yields doing+agent; creation yields todo/unclaimed. The step used in the fold is proved to be what one iteration of the real replay loop does to every live item, for every event type.",
+         "DESIGN.md §7.1, §8 C06", TRUST+"encoding/json and time.Format/Parse round trips and strings.TrimSpace algebra are trusted; induction over command sequences is the standard soundness argument of invariants. Two genuine defects were repaired (fix: 15917f3)."),
+ "C07": ("proof", "For all graphs: the recursive reachability search is proved complete (a false answer leaves a dependency-closed visited set containing the target end and not the source), the link section appends only after existence, tombstone, self, kind and cycle checks on the graph read under the lock, and an explicit re-ranking lemma is discharged showing that any strict ranking of the read graph extends to the graph plus the appended edge (acyclicity preserved); sequence builds edge B->A for consecutive A B; tombstone replay removes exactly the edges touching the pruned id.",
+         "DESIGN.md §8 C07", TRUST+"Acyclicity is stated as existence of a rank; rankOf is uninterpreted so the lemma holds for every ranking. deps/rdeps mirror and plan edges are not yet under contract."),
+ "C08": ("proof", "For all graphs and all map iteration orders: isReady/isBlocked/isEpicComplete/areEpicDepsComplete equal the spec predicates transcribed from the statement; listTasks/filterTasksByKind (in-place, aliasing modelled)/readyTasks return exactly the specified members ordered by (created, id); the claim section returns the first of them and reports no-ready exactly when the set is empty.",
+         "DESIGN.md §8 C08", TRUST+"sort.Slice/sort.Strings contracts (same elements, ordered by the proved comparator)."),
+ "C09": ("proof", "For all graphs: selectPruneTargets returns exactly the finished tasks and the epics without unfinished children; the dry run writes nothing and the applied tombstones are exactly the planned ids; replay keeps every tombstoned id out of tasks, meta and all edges for EVERY event list (loop invariant over the real replay loop, all cases); set/link/result sections reject pruned and unknown ids; new ids are fresh against live and pruned ids (defect repaired, fix: 5cfb160).",
+         "DESIGN.md §8 C09", TRUST+"crypto/rand/base32 id generation is an assumed contract (some string or an error)."),
+ "C10": ("proof", "Ghost log version: every lock section and every command under contract has the postcondition `error ==> log version unchanged`, proved from the real code with validation-before-append; where the real code commits before it validates (set with result, new task with follow-up fields, multi-edge sequence, post-commit reload) the failing clause is a recorded finding whose residual query (clause holds outside the recorded shape) is discharged on every run.",
+         "DESIGN.md §8 C10", TRUST+"I/O faults of write primitives and stdout are excluded; plan is not yet under contract."),
+ "C14": ("proof", "For all stores: creation with an epic id and epic reassignment are proved to require an existing, unpruned item that is an epic (two genuine defects repaired, fix: 02540a6); epics are never given an epic; the prune policy removes an epic only when every child is finished (and those children are pruned in the same batch).",
+         "DESIGN.md §8 C14", TRUST+"plan and the tree builder are not yet under contract."),
+ "C16": ("proof", "Ghost output counters: for claim, claim <id>, set, new task, new epic, sequence, prune, compact, show, init it is proved that a successful --json run writes exactly one JSON value and no text to stdout and a failing one at most one JSON object and no text; the create reply (id, state, title, body, epic, kind) equals the appended event.",
+         "DESIGN.md §7.4, §8 C16", TRUST+"writeJSON/fmt.Print* contracts are assumed; cmd/ergo wiring, list and plan are outside the functions under contract."),
+}
+claimed = {k:(v[0],v[1],v[2],v[3],TECH) for k,v in claimed.items()}
+NA={
+ "C03":"not yet claimed: needs the storage layer (appendEvents/readEvents bodies) under contract with crash conditions; planned (DESIGN.md §7.3)",
+ "C04":"not yet claimed: needs crash conditions on the multi-event writers; planned (DESIGN.md §7.3)",
+ "C05":"not yet claimed: compactEvents round-trip lemma not yet discharged (DESIGN.md §8 C05)",
+ "C11":"not yet claimed: RunPlan's section (three loops over a mutable working graph) is not yet under contract",
+ "C12":"not yet claimed: replay totality is proved (safety obligations of replayEvents/applyTombstone for every event list) but readEvents, sort determinism and read purity of list are not yet under contract",
+ "C13":"not yet claimed: needs the rely/guarantee treatment of readEvents (DESIGN.md §8 C13)",
+ "C15":"not yet claimed: progress lemma over the effective waits-for relation not yet written (DESIGN.md §8 C15)",
+ "C17":"not yet claimed: identity-dataflow contracts over the input paths not yet written",
+ "C18":"not yet claimed: needs a ghost file-presence model for init/getEventsPath",
+ "C19":"not yet claimed: structural contracts of the tree view not yet written; glyph geometry and width arithmetic are outside contract reach (go-runewidth tables)",
+ "C20":"not yet claimed: the result section's dataflow is proved (evidence in C09/C10 runs) but path confinement needs a bounded stand-in and file_url needs an absolute-path contract",
 }
 hooks=subprocess.run(['git','-C','/repo','log','--format=%H %s'],capture_output=True,text=True).stdout.strip().split('\n')
 hook_commits=[l.split()[0] for l in hooks if l.split(' ',1)[1].startswith('verif:')]
@@ -20,7 +45,7 @@ for pid,(cat,text,ref,note,tech) in sorted(claimed.items()):
     checks.append({"property_id":pid,"quick_cmd":"./check %s --tier quick"%pid,"thorough_cmd":"./check %s --tier thorough"%pid,
       "evidence_file":"/verif/evidence/%s.json"%pid,"replay_cmd_template":"./check %s --replay {path}"%pid,"engine":"ergoverify",
       "level_claimed":{"category":cat,"text":text,"design_ref":ref},"level_note":note,"technique":tech})
-na=[{"property_id":p["id"],"reason":"not yet claimed: contracts for the functions this property depends on are not yet discharged (machinery under construction; DESIGN.md §12 gives the build order)"} for p in props if p["id"] not in claimed]
+na=[{"property_id":p["id"],"reason":NA.get(p["id"], "not yet claimed: contracts for the functions this property depends on are not yet discharged")} for p in props if p["id"] not in claimed]
 m={"version":1,
  "setup_cmd":"cd /verif/engine && GOFLAGS=-mod=mod GOPROXY=off go build -o /verif/bin/ergoverify .",
  "hooks":{"guard":"verif","enable":"go build -tags=verif (internal/ergo/verif_contracts.go is only compiled with the tag; it holds //@ contract comments, no runtime hooks)",
